@@ -431,9 +431,13 @@ def gndx_case(ctx, system):
     top = c17.build_topology(case)
     try:
         engine = NonBondEngine.from_topology(top.molecules, top, c17.BOX.copy(), ignore=list(case["ignore"]))
-        table = sorted(([int(k[0]), int(k[1]), int(v)] for k, v in engine.nodes_to_gndx.items()), key=lambda t: t[2])
+        index = getattr(engine, "nodes_to_gndx", None)
+        types_ = getattr(engine, "atypes", None)
+        if not isinstance(index, dict) or types_ is None or not hasattr(types_, "__len__"):
+            return ("unobservable", []), None
+        table = sorted(([int(k[0]), int(k[1]), int(v)] for k, v in index.items()), key=lambda t: t[2])
         impl = table
-        atypes = [str(x) for x in engine.atypes]
+        atypes = [str(x) for x in types_]
     except Exception as err:  # pylint: disable=broad-except
         impl = "error:" + type(err).__name__
         table, atypes = [], []
@@ -643,10 +647,17 @@ def run_e2e(case, tmpdir):
     # the residue type the engine uses for every residue it indexes (sizes, step lengths, forces)
     result["wrong_types"] = []
     for engine, molecules in captured:
-        for (midx, node), gndx in engine.nodes_to_gndx.items():
-            want = molecules[midx].nodes[node].get("template", molecules[midx].nodes[node]["resname"])
-            if str(engine.atypes[gndx]) != str(want):
-                result["wrong_types"].append([int(midx), int(node), str(engine.atypes[gndx]), str(want)])
+        index, types_ = getattr(engine, "nodes_to_gndx", None), getattr(engine, "atypes", None)
+        if not isinstance(index, dict) or types_ is None:
+            result["unobservable"] = True
+            continue
+        try:
+            for (midx, node), gndx in index.items():
+                want = molecules[midx].nodes[node].get("template", molecules[midx].nodes[node]["resname"])
+                if str(types_[gndx]) != str(want):
+                    result["wrong_types"].append([int(midx), int(node), str(types_[gndx]), str(want)])
+        except (KeyError, IndexError, TypeError):
+            result["unobservable"] = True
     result["forced"] = dict(attempts=state["attempts"], steps=state["steps"])
     return result, req, residues
 
@@ -672,6 +683,8 @@ def judge_e2e(ctx, case, result, ans, residues):
         # -c together with -mc: every deviation is the one known finding
         ctx.oracle_fail("combined-c-and-mc" if combined else shape, text, replay)
 
+    if result.get("unobservable"):
+        ctx.tally(internal_state_not_observable=True)
     if result.get("wrong_types"):
         fail("residue-type-of-another-residue", "the engine builds residue (molecule %d, node %d) with the size of %s, "
              "it is a %s (%d residues affected): %s" % (*result["wrong_types"][0], len(result["wrong_types"]), what))
@@ -747,6 +760,9 @@ def run_inputs(ctx, consume_cases, gndx_systems, machine_cases, e2e_cases, consu
             todo.append(("consume2", case, impl, None))
         for system in gndx_systems:
             impl, req = gndx_case(ctx, system)
+            if req is None:
+                ctx.tally(internal_state_not_observable=True)
+                continue
             reqs.append(req)
             todo.append(("gndx", system, impl, None))
         for case in e2e_cases:
